@@ -8,7 +8,8 @@ open CffiVerif CffiVerif.DlClose CffiVerif.Proto
 * `getf n` → `ok func` | `err Closed` | `err NotFound`
 * `read n` → `ok <int>` | `err …`
 * `write n v` → `ok` | `err …`
-* `close` → `ok`
+* `close` → `ok`                      (a whole `ffi.dlclose` call)
+* `closestep` → `ok closing` | `ok`   (the next step of a `dlclose` call other threads interleave with)
 * `state` → `ok open|closed <#cached functions> <#cached variable accessors>` -/
 structure DState where
   impl : Impl
@@ -26,9 +27,12 @@ def pairs : List String → Option (List (Name × Int))
 def showOut : Out → String
   | .func _ => "ok func"
   | .value v => s!"ok {v}"
+  | .written => "ok"
+  | .closing => "ok closing"
   | .done => "ok"
   | .err .closed => "err Closed"
   | .err .notFound => "err NotFound"
+  | .err .useAfterUnload => "err UseAfterUnload"
 
 def apply (d : DState) (op : Op) : DState × String :=
   let (s', o) := step d.impl d.s op
@@ -53,6 +57,7 @@ def step' (d : DState) : List String → DState × String
     | some n, some v => apply d (.writeVar n v)
     | _, _ => (d, "bad-op")
   | ["close"] => apply d .close
+  | ["closestep"] => apply d .closeStep
   | ["state"] => (d, s!"ok {if d.s.isOpen then "open" else "closed"} {d.s.cachedF.length} {d.s.cachedV.length}")
   | _ => (d, "bad-op")
 
